@@ -150,6 +150,9 @@ theorem rt_map (env : Env) (rk : String → Nat) (hE : EnvWF env rk) (kvs : List
     rw [readLen_len _ kvs.length _ hwt.1 hr1]
     have hr2 := Reader.rest_adv _ _ _ hr1
     simp only
+    rw [checkLength_ok _ kvs.length _ hr2
+      (by have := encPairs_length_ge env k v kvs hwt.2.2; simp only [List.length_append]; omega)]
+    simp only
     rw [decPairs_rt env rk hE k v hty.1 hty.2 kvs ih hwt.2.2 hwt.2.1 f [] _ t
       (by intro p hp; cases hp) (by omega) hr2]
     simp [Reader.adv_adv, Nat.add_assoc]
